@@ -23,6 +23,15 @@
       computed by [fin_visit] is the sequence of user [finalize] calls made by one
       [Finalize::finalize] call on the value.
 
+    - [VZst]: a value of a ZERO-SIZED user type (no fields, hence no identity): its [Trace]
+      reports no [Cc] but records the call, and its [finalize] records the call, both under
+      the fixed tag [zst_tag].  Sequences of zero-sized elements ([Vec<Zst>], [[Zst; N]],
+      [Box<[Zst]>]) must be traced / finalized once per element like any other.
+
+    Besides [visit] (the [Cc]s reported) the model has [utrace]: the sequence of [trace] calls
+    that reach user values ([VUser c] records [c], [VZst] records [zst_tag]); it is what the
+    probes observe for element types that cannot hold a [Cc].
+
     [VWeak c] is a [Weak<_>] whose pointee has identity [c]: the identity is carried only so
     that the probes can check that the pointee is *not* reported.
 
@@ -42,6 +51,7 @@ Inductive bstate := BFree | BShared | BMut.
 Inductive value : Type :=
 | VLeaf (c : nat)                         (* Cc<_>                       *)
 | VUser (c : nat)                         (* user type, counting finalize *)
+| VZst                                    (* zero-sized user type          *)
 | VScalar                                 (* (), bool, ints, floats, char, String, ... *)
 | VWeak (c : nat)                         (* Weak<_>                     *)
 | VCleaner                                (* cleaners::Cleaner           *)
@@ -63,6 +73,7 @@ Section value_ind.
   Variable P : value -> Prop.
   Hypothesis HLeaf : forall c, P (VLeaf c).
   Hypothesis HUser : forall c, P (VUser c).
+  Hypothesis HZst : P VZst.
   Hypothesis HScalar : P VScalar.
   Hypothesis HWeak : forall c, P (VWeak c).
   Hypothesis HCleaner : P VCleaner.
@@ -90,6 +101,7 @@ Section value_ind.
     match v with
     | VLeaf c => HLeaf c
     | VUser c => HUser c
+    | VZst => HZst
     | VScalar => HScalar
     | VWeak c => HWeak c
     | VCleaner => HCleaner
@@ -129,7 +141,7 @@ Fixpoint wf (v : value) : bool :=
 Fixpoint owned (v : value) : list nat :=
   match v with
   | VLeaf c => [c]
-  | VUser _ | VScalar | VWeak _ | VCleaner | VCleanable | VPhantom | VNone => []
+  | VUser _ | VZst | VScalar | VWeak _ | VCleaner | VCleanable | VPhantom | VNone => []
   | VTuple l | VArray l | VSlice l | VVec l => flat_map owned l
   | VBox v | VSome v | VOk v | VErr v | VRefCell _ v | VManuallyDrop v | VAssertUnwindSafe v => owned v
   end.
@@ -139,18 +151,22 @@ Fixpoint owned (v : value) : list nat :=
 Fixpoint owned_unborrowed (v : value) : list nat :=
   match v with
   | VLeaf c => [c]
-  | VUser _ | VScalar | VWeak _ | VCleaner | VCleanable | VPhantom | VNone => []
+  | VUser _ | VZst | VScalar | VWeak _ | VCleaner | VCleanable | VPhantom | VNone => []
   | VTuple l | VArray l | VSlice l | VVec l => flat_map owned_unborrowed l
   | VRefCell BFree v => owned_unborrowed v
   | VRefCell _ _ => []
   | VBox v | VSome v | VOk v | VErr v | VManuallyDrop v | VAssertUnwindSafe v => owned_unborrowed v
   end.
 
+(** The tag under which the (identity-less) zero-sized user values are recorded. *)
+Definition zst_tag : nat := 999.
+
 (** All user values contained in the value, in field order (a [Cc] *points to* its pointee,
     it does not contain it). *)
 Fixpoint users (v : value) : list nat :=
   match v with
   | VUser c => [c]
+  | VZst => [zst_tag]
   | VLeaf _ | VScalar | VWeak _ | VCleaner | VCleanable | VPhantom | VNone => []
   | VTuple l | VArray l | VSlice l | VVec l => flat_map users l
   | VBox v | VSome v | VOk v | VErr v | VRefCell _ v | VManuallyDrop v | VAssertUnwindSafe v => users v
@@ -160,11 +176,24 @@ Fixpoint users (v : value) : list nat :=
 Fixpoint users_unlocked (v : value) : list nat :=
   match v with
   | VUser c => [c]
+  | VZst => [zst_tag]
   | VLeaf _ | VScalar | VWeak _ | VCleaner | VCleanable | VPhantom | VNone => []
   | VTuple l | VArray l | VSlice l | VVec l => flat_map users_unlocked l
   | VRefCell BMut _ => []
   | VRefCell _ v => users_unlocked v
   | VBox v | VSome v | VOk v | VErr v | VManuallyDrop v | VAssertUnwindSafe v => users_unlocked v
+  end.
+
+(** ... except those below a [RefCell] that is borrowed at all (what [trace] may reach). *)
+Fixpoint users_unborrowed (v : value) : list nat :=
+  match v with
+  | VUser c => [c]
+  | VZst => [zst_tag]
+  | VLeaf _ | VScalar | VWeak _ | VCleaner | VCleanable | VPhantom | VNone => []
+  | VTuple l | VArray l | VSlice l | VVec l => flat_map users_unborrowed l
+  | VRefCell BFree v => users_unborrowed v
+  | VRefCell _ _ => []
+  | VBox v | VSome v | VOk v | VErr v | VManuallyDrop v | VAssertUnwindSafe v => users_unborrowed v
   end.
 
 (** A declarative, position-based reading of the same specification: [cc_at v p c] says that
@@ -220,6 +249,8 @@ Fixpoint visit (v : value) : list nat :=
   | VLeaf c => [c]
   (* probe-side user type: hand-written Trace with an empty body *)
   | VUser _ => []
+  (* probe-side zero-sized user type: hand-written Trace that reports no Cc *)
+  | VZst => []
   (* trace.rs:174-241  empty_trace!: fn trace(&self, _) {} *)
   | VScalar => []
   (* src/weak/mod.rs:203-208  Trace for Weak<T>: empty body *)
@@ -261,6 +292,8 @@ Fixpoint fin_visit (v : value) : list nat :=
   | VLeaf _ => []
   (* probe-side user type: finalize records its identity *)
   | VUser c => [c]
+  (* probe-side zero-sized user type: finalize records the call under [zst_tag] *)
+  | VZst => [zst_tag]
   (* trace.rs:182-183  empty_trace!: impl Finalize for $this {} *)
   | VScalar => []
   (* src/weak/mod.rs:210-211  impl Finalize for Weak<T> {} *)
@@ -292,6 +325,26 @@ Fixpoint fin_visit (v : value) : list nat :=
   (* trace.rs:275-282  deref_trace! Finalize half, ManuallyDrop / AssertUnwindSafe *)
   | VManuallyDrop v => fin_visit v
   | VAssertUnwindSafe v => fin_visit v
+  end.
+
+(** The sequence of user [trace] calls performed by [Trace::trace(&v, ctx)]: same clauses as
+    [visit] (the impls forward [trace] to their contents; what differs is the leaf).  A [Cc]
+    does not trace its pointee during the call (src/cc.rs:343-349 only touches counters). *)
+Fixpoint utrace (v : value) : list nat :=
+  match v with
+  | VLeaf _ => []
+  | VUser c => [c]
+  | VZst => [zst_tag]
+  | VScalar | VWeak _ | VCleaner | VCleanable | VPhantom | VNone => []
+  (* trace.rs:421-437 tuples; 367-374 arrays; 385-392 slices; 403-410 Vec *)
+  | VTuple l => flat_map utrace l
+  | VArray l => flat_map utrace l
+  | VSlice l => flat_map utrace l
+  | VVec l => flat_map utrace l
+  (* trace.rs:264-273 deref_trace!; 329-336 Option; 347-355 Result *)
+  | VBox v | VSome v | VOk v | VErr v | VManuallyDrop v | VAssertUnwindSafe v => utrace v
+  (* trace.rs:311-318 RefCell: try_borrow_mut *)
+  | VRefCell b v => if try_borrow_mut_ok b then utrace v else []
   end.
 
 (** ** Generic list lemmas. *)
@@ -533,6 +586,43 @@ Theorem fin_visit_cleaner : fin_visit VCleaner = [].               Proof. reflex
 Theorem fin_visit_cleanable : fin_visit VCleanable = [].           Proof. reflexivity. Qed.
 Theorem fin_visit_phantom : fin_visit VPhantom = [].               Proof. reflexivity. Qed.
 Theorem fin_visit_scalar : fin_visit VScalar = [].                 Proof. reflexivity. Qed.
+
+Theorem fin_visit_zst : fin_visit VZst = [zst_tag].                Proof. reflexivity. Qed.
+
+(** ** C17, user-leaf reading of the trace half (covers zero-sized element types). *)
+
+Theorem utrace_users : forall v, utrace v = users_unborrowed v.
+Proof.
+  induction v using value_ind'; simpl; auto using flat_map_ext_Forall.
+  destruct b; simpl; auto.
+Qed.
+
+Lemma users_unborrowed_all : forall v, unborrowed v = true -> users_unborrowed v = users v.
+Proof.
+  induction v using value_ind'; simpl; intros Hb; auto;
+    try (apply flat_map_ext_Forall; eapply Forall_forallb_imp; eauto; fail).
+  destruct b; simpl in *; auto; discriminate.
+Qed.
+
+Theorem utrace_all_users : forall v, unborrowed v = true -> utrace v = users v.
+Proof. intros. rewrite utrace_users. now apply users_unborrowed_all. Qed.
+
+(** A sequence of [n] zero-sized elements is traced and finalized exactly [n] times, whatever
+    the sequence container. *)
+Lemma flat_map_repeat_single (A B : Type) (f : A -> list B) (x : A) (y : B) n :
+  f x = [y] -> flat_map f (repeat x n) = repeat y n.
+Proof. intros H. induction n; simpl; auto. now rewrite H, IHn. Qed.
+
+Theorem zst_sequences : forall n,
+  let l := repeat VZst n in
+  utrace (VVec l) = repeat zst_tag n /\ utrace (VArray l) = repeat zst_tag n /\
+  utrace (VBox (VSlice l)) = repeat zst_tag n /\
+  fin_visit (VVec l) = repeat zst_tag n /\ fin_visit (VArray l) = repeat zst_tag n /\
+  fin_visit (VBox (VSlice l)) = repeat zst_tag n.
+Proof.
+  intros n l. unfold l. simpl.
+  repeat split; apply flat_map_repeat_single; reflexivity.
+Qed.
 
 (** ** Executable glue for the correspondence check (not part of the property).
 
